@@ -153,3 +153,8 @@ func (c *FileCache[M]) VerifSnapshot() VerifSnap {
 	}
 	return s
 }
+
+// VerifJanitorMailboxLen reports how many interval changes are waiting in the
+// cleanup task's mailbox (0 or 1).
+func (c *MemoryCache[M]) VerifJanitorMailboxLen() int { return len(c.janitor.intervalChanged) }
+func (c *FileCache[M]) VerifJanitorMailboxLen() int   { return len(c.janitor.intervalChanged) }
